@@ -339,13 +339,16 @@ def run_lookup(rng, ctx, n_cases):
 CELLS = [1.0, 2.0, 2.0, 5.0, -3.0, 0.0, 10.0, 3.5, 'a', 'A', 'b', 'B', 'ab', 'abc',
          'cat', 'Dog', 'x y', '10', '3.5', '2', True, False, sh.EMPTY, sh.EMPTY, 100.0,
          # multi-line texts: wildcards cover line feeds too
-         'Total\n2024', 'tota\n', 'a\nb']
+         'Total\n2024', 'tota\n', 'a\nb',
+         # error values among the cells: no order with numbers or texts
+         xl.err('#N/A'), xl.err('#DIV/0!')]
 OPS = ['=', '<>', '<', '>', '<=', '>=', '']
 
 
 def criteria_for(rng, cells):
     out = []
-    pool = [c for c in cells if c is not sh.EMPTY] + [4.0, 'c', 'zebra', 'B', 2.0]
+    pool = [c for c in cells if c is not sh.EMPTY and xl.kind(c) != 'err'] + [
+        4.0, 'c', 'zebra', 'B', 2.0]
     for _ in range(10):
         x = rng.choice(pool)
         op = rng.choice(OPS)
